@@ -8,7 +8,9 @@ META = {
                  "differential run of the real settings package (repeated lookups, restart)",
     "text": ("Lean theorems Hv.C21.holds_ranked = resolve_perm (result independent of map/registration order), resolve_most_specific "
              "(no registered matching pattern is strictly more specific than the winner; default iff nothing matches) and "
-             "resolve_restart (reload of settings.json gives the same registry) for every gateway-reachable registry, name and "
+             "resolve_restart (reload of settings.json gives the same registry), registry_follows_history / resolves_to_last_registration (after "
+             "any history of registrations, re-registrations and deregistrations every key holds its last registration and lookups "
+             "return it) for every gateway-reachable registry, name and "
              "iteration order when GetBySwampName ranks all matches with a strict comparison and positive distinct weights; "
              "refutes_iteratesMap / map_order_witness (closed counterexample) when it returns the first match of a map range; "
              "refutes_dropped_field when a persisted field is not carried through settings.json; classify_sound ties the decision "
@@ -22,6 +24,8 @@ META = {
 FINDINGS = {
     "C21-map-order-lookup": "GetBySwampName returns the first match of a Go map iteration: with overlapping patterns the same swamp "
                             "resolves to different settings from one lookup to the next (e.g. exact persistent + realm-wildcard in-memory)",
+    "C21-reregistration-ignored": "RegisterPattern's `not changed` early return ignores the swamp type: `reg a/x/p M 4` then `reg a/x/p P 4 0 0` "
+                                  "leaves the pattern in-memory; lookups keep returning the older registration",
     "C21-restart-loses-field": "a pattern field is not carried through settings.json: after a restart the same name resolves to different settings",
 }
 
@@ -38,18 +42,21 @@ def _more_specific(q, p):
 def oracle(rep):
     """Spec oracle on the implementation's replies only: one result per lookup batch, the winner is a
     most specific registered match (default iff none), the same result after a restart."""
-    keys, last = set(), {}
+    keys, last, regd = set(), {}, {}
     for op, line in zip(rep["ops"], rep["impl"]):
         f = op.split(" ")
         if line == "panic":
             return (None, "`%s` panicked" % op)
         if f[0] == "case":
-            keys, last = set(), {}
+            keys, last, regd = set(), {}, {}
         elif f[0] == "reg":
             keys.add(tuple(f[1:4]))
+            # what the registration asks for (in-memory patterns carry no interval / size)
+            regd[tuple(f[1:4])] = "M|%s|0|0" % f[5] if f[4] == "M" else "P|%s|%s|%s" % (f[5], f[6], f[7])
             last = {}
         elif f[0] == "dereg":
             keys.discard(tuple(f[1:4]))
+            regd.pop(tuple(f[1:4]), None)
             last = {}
         elif f[0] == "get" and line.startswith("res"):
             name = tuple(f[1:4])
@@ -65,6 +72,11 @@ def oracle(rep):
                 elif pat not in matching or any(_more_specific(k, pat) for k in matching):
                     return ("C21-map-order-lookup", "%s resolved to %s although a more specific registered pattern matches (registered: %s)"
                             % ("/".join(name), r, " ".join(sorted("/".join(k) for k in matching))))
+            for r in res:
+                pat = tuple(r.split("|")[0].split("/"))
+                if pat in regd and r.split("|", 1)[1] != regd[pat]:
+                    return ("C21-reregistration-ignored", "%s resolved to %s but pattern %s was last registered as %s"
+                            % ("/".join(name), r, "/".join(pat), regd[pat]))
             if name in last and last[name] != res:
                 return ("C21-restart-loses-field", "%s resolved to %s before and %s after a restart" % ("/".join(name), last[name], res))
             last[name] = res
@@ -84,7 +96,7 @@ def run(ctx):
     K.report_mismatch(ctx, spec_violated)
     c = corrs[0][2] if corrs else K.Corr()
     oracle_hits = 0
-    if corrs and not c.mismatch:
+    if corrs:
         oracle_hits = U.oracle_sweep(ctx, c, "C21", corrs[0][1], oracle)
     U.leancheck(ctx, ["Hv.Props.C21", "Hv.Misc.SettingsLemmas", "Hv.Misc.Settings", "Hv.Misc.NameBase"])
     multi = sum(1 for l in c.impl if l.startswith("res") and len(l.split(" ")) > 2)
